@@ -35,7 +35,7 @@ PROPS = {
         "assumptions": ["ParseFloat key order-isomorphic to float order", "trial names are unique (Kubernetes)"],
     },
     "C03": {
-        "prop_files": ["Katib/Props/C03.lean", "Katib/Props/C03Ctl.lean", 'Katib/Props/C03World.lean', 'Katib/Props/C03Frozen.lean', 'Katib/Props/C04Resume.lean'],
+        "prop_files": ["Katib/Props/C03.lean", "Katib/Props/C03Ctl.lean", 'Katib/Props/C03World.lean', 'Katib/Props/C03Frozen.lean', 'Katib/Props/C04Resume.lean', 'Katib/Props/C03Restartable.lean'],
         "streams": [("C03", {"quick": 30000, "thorough": 600000}), ("SIM", {"quick": 240, "thorough": 8000})],
         "rule": "same generator as C05 with stored conditions in every completion state (none/Succeeded by 3 reasons/Failed/stale False verdicts), "
                 "budgets maxTrialCount 1-6 or unset, maxFailedTrialCount 0-4 or unset, goal set/unset; non-trivial = at least one trial with a metric",
@@ -148,7 +148,7 @@ PROPS = {
         "assumptions": ["database/sql passes statement text and arguments unchanged to the driver"],
     },
     "C15": {
-        "prop_files": ["Katib/Props/C15.lean"],
+        "prop_files": ["Katib/Props/C15.lean", 'Katib/Props/C03Restartable.lean'],
         "n": {"quick": 4000, "thorough": 100000},
         "rule": "stored experiment (budget values, resume policy, status.trials 0-6, completion state none/MaxTrialsReached/GoalReached/Failed) x update: no spec edit, "
                 "budget edits (change/remove any of the three), or an edit of one place of the spec enumerated by reflection over ExperimentSpec (every leaf, pointer->nil, "
